@@ -394,6 +394,7 @@ reg("C18", needs_cli=True, race={"quick": 60, "thorough": 600, "clause": 22}, ge
     clauses={1: "a dial attempted an address that is not resolved for the host, or not exactly one per IP family present", 2: "an address of the resolved set was never dialled in the second half of a long history (the cached set shrank)",
              3: "a dial failed before reaching the recording dial function", 10: "ConnectTo dialled an address that is not a replacement", 11: "ConnectTo rotation uneven (a replacement used fewer than floor(n/k) or more than ceil(n/k) times)",
              12: "an unmapped address did not pass through unchanged",
+             5: "with a positive DNS TTL the dials did not follow a change of the host's address within several TTLs (the cache is not refreshed every TTL)",
              4: "with a DNS TTL of 0 (cache forever) the host was looked up again for later connections", 40: "the DNS dials of a custom resolver list do not rotate evenly over its addresses",
              22: "data race reported in the dial path",
              30: "the attack command's requests for a -connect-to address did not all succeed at its replacements", 31: "the attack command never used one of the -connect-to replacements"},
